@@ -418,7 +418,9 @@ fn case(seed: u64, trace: bool) -> CaseOut {
         // credit is returned only for data that was consumed or discarded: the connection-level
         // limit never runs ahead of the window by more than what the peer actually used
         out.cnt.inc("c06.credit_bound_checks");
-        {
+        // (bytes of a frame that was wrongly accepted are not in the model's consumption: that
+        // acceptance has been reported, its arithmetic consequences are not a second finding)
+        if violations.is_empty() {
             let p = s.w.eps[ve].conns[&vch].c.verif_probe();
             if rwnd_max < (1 << 40) && p.streams.local_max_data > rwnd_max.saturating_add(m.total) {
                 violations.push(format!("the victim's connection-level limit is {}, more than its receive window {rwnd_max} plus the {} bytes its peer ever used", p.streams.local_max_data, m.total));
